@@ -223,3 +223,15 @@ Theorem C01_lookup_answer :
         Forall (failed_entry OP samples lon lat r) (x :: l))).
 Proof. exact (@lookup_answer). Qed.
 Print Assumptions C01_lookup_answer.
+
+(* ---- Interval model soundness: the executable interval instance (used by the correspondence check) encloses the
+   ideal-real instance about which the theorems of this file speak.  [encl i x] = the real x lies in the interval i;
+   [sound_opt rel a b] = whenever the interval run answers [Some], the real run answers [Some] with a related value
+   (the interval run may give up with [None], never answer differently). ---- *)
+From A5 Require Import Num.IvInst Num.IvSound Geo.IvSoundGeo Geo.IvSoundCell.
+
+Theorem C01_interval_lookup_sound : forall lon lat lon' lat' res,
+  encl lon lon' -> encl lat lat' ->
+  sound_opt eq (lonlat_to_cell IvInst lon lat res) (lonlat_to_cell RInst lon' lat' res).
+Proof. exact lonlat_to_cell_sound. Qed.
+Print Assumptions C01_interval_lookup_sound.
